@@ -264,3 +264,6 @@ mut("c17e-walker-no-root-stop", "C17", "yrs/src/types/xml.rs", "                
 mut("c19g-empty-attrs-plain-insert", "C19", "yffi/src/lib.rs", "        if let Some(attrs) = map_attrs(attrs.read().into()) {\n            txt.insert_with_attributes(txn, index, chunk, attrs)\n        } else {\n            panic!(\"ytext_insert: passed attributes are not of map type\")\n        }",
     "        match map_attrs(attrs.read().into()) {\n            Some(attrs) if attrs.is_empty() => txt.insert(txn, index, chunk),\n            Some(attrs) => txt.insert_with_attributes(txn, index, chunk, attrs),\n            None => panic!(\"ytext_insert: passed attributes are not of map type\"),\n        }", "C19.g")
 mut("pred-has-added-by-clock", "C11", T, "    pub(crate) fn has_added(&self, id: &ID) -> bool {\n        self.insert_set.contains(id)", "    pub(crate) fn has_added(&self, id: &ID) -> bool {\n        id.clock >= self.before_state().get(&id.client)", "C11.p")
+mut("lookup-search-end-exclusive", "C04", BS, "                    if clock <= end {\n                        return Some(mid);", "                    if clock < end {\n                        return Some(mid);", "lookup")
+mut("lookup-clean-end-off-by-one", "C04", BS, "        let offset = id.clock - block_id.clock;\n        Some(ItemSlice::new(ptr, 0, offset))", "        let offset = id.clock - block_id.clock;\n        Some(ItemSlice::new(ptr, 0, offset + 1))", "lookup", also=["C01", "C12"])
+mut("lookup-benign-clean-start-named", "C04", BS, "        let offset = id.clock - ptr.id().clock;\n        Some(ItemSlice::new(ptr, offset, ptr.len() - 1))", "        let start = id.clock - ptr.id().clock;\n        let last = ptr.len() - 1;\n        Some(ItemSlice::new(ptr, start, last))", "", kind="benign", also=["C01", "C12"])
